@@ -1,6 +1,22 @@
 // docopt: {"file": "...", "args": [...], "repeat": n}  ->  {"outs": [distinct outcomes...], "n": n}
 use serde_json::{json, Value as J};
 
+// the frozen version of the module on which the docopt known findings were recorded (tools/pin_docopt.sh)
+fn once_pinned(file: &str, args: &[String]) -> J {
+    let r = std::panic::catch_unwind(|| {
+        let a: Vec<&str> = args.iter().map(|s| s.as_str()).collect();
+        crate::pinned_docopt::parse(file, &a)
+    });
+    match r {
+        Ok(Ok(v)) => json!({"ok": v}),
+        Ok(Err(e)) => match e.kind() {
+            rash_core::error::ErrorKind::GracefulExit => json!({"help": format!("{}", e)}),
+            k => json!({"err": format!("{:?}", k)}),
+        },
+        Err(_) => json!({"panic": true}),
+    }
+}
+
 fn once(file: &str, args: &[String]) -> J {
     let r = std::panic::catch_unwind(|| {
         let a: Vec<&str> = args.iter().map(|s| s.as_str()).collect();
@@ -54,6 +70,9 @@ pub fn run(case: &J) -> J {
         if !outs.contains(&o) {
             outs.push(o);
         }
+    }
+    if case["pinned"].as_bool().unwrap_or(false) {
+        return json!({"outs": outs, "pinned": once_pinned(&file, &args)});
     }
     if case["trace"].as_bool().unwrap_or(false) {
         // the expanded usages in the order the last parse tried them (hook, --cfg rash_verif)
